@@ -90,7 +90,14 @@ func (a *Agg) Inconclusive(format string, x ...interface{}) {
 	a.Inconcl = append(a.Inconcl, fmt.Sprintf(format, x...))
 }
 
-const VerifDir = "/verif"
+// VerifDir is where evidence/, replay/, .work/ and known_findings.json live.
+// VERIF_DIR overrides it (used only for scratch copies during development).
+var VerifDir = func() string {
+	if d := os.Getenv("VERIF_DIR"); d != "" {
+		return d
+	}
+	return "/verif"
+}()
 
 func seedFromEnv() int64 {
 	if s := os.Getenv("VERIF_SEED"); s != "" {
